@@ -32,6 +32,10 @@ pub enum Op {
     Mode(bool),
     /// a loss report (NAK) for a sequence number this link holds, attributed to it: a charge, never delivery proof
     NakOwned(u16),
+    /// packets routed to the link but still in its batch queue (not yet flushed, hence not in flight)
+    Queue(u16, u8),
+    /// the link's batch is flushed: the queued packets are in flight from now on
+    FlushQ(u16),
 }
 
 #[derive(Debug, Clone, Hash, Serialize, Deserialize)]
@@ -72,6 +76,8 @@ fn op() -> impl Strategy<Value = Op> {
         1 => (0u8..CEILINGS.len() as u8).prop_map(Op::Ceiling),
         1 => any::<bool>().prop_map(Op::Mode),
         3 => any::<u16>().prop_map(Op::NakOwned),
+        2 => (any::<u16>(), prop_oneof![Just(1u8), Just(12), Just(31), 1u8..32]).prop_map(|(l, k)| Op::Queue(l, k)),
+        1 => any::<u16>().prop_map(Op::FlushQ),
     ]
 }
 
@@ -177,6 +183,22 @@ pub fn check(case: &Case, obs: &mut Obs) -> CheckResult {
                         vensure!(found, "harness", "earned ack not found");
                         mons[i].heard = Some(now);
                         mons[i].proof = now;
+                    }
+                    Op::Queue(l, k) => {
+                        let c = &mut links[idx(*l, n)];
+                        for _ in 0..*k {
+                            if c.batch_sender.queued_count() >= 31 {
+                                break; // the next one would trigger the size flush
+                            }
+                            let mut p = [0u8; 32];
+                            p[0..4].copy_from_slice(&(seq as u32).to_be_bytes());
+                            c.queue_data_packet(&p, Some(seq as u32), now);
+                            seq += 1;
+                        }
+                        obs.class("packets-queued-not-in-flight");
+                    }
+                    Op::FlushQ(l) => {
+                        let _ = links[idx(*l, n)].take_batch(now);
                     }
                     Op::NakOwned(l) => {
                         // arrives on some other (healthy) link; the named link only loses the packet and pays for it
